@@ -13,6 +13,7 @@ import (
 	"time"
 
 	nas "github.com/free5gc/nas"
+	"github.com/free5gc/nas/logger"
 	"github.com/free5gc/nas/nasConvert"
 	"github.com/free5gc/nas/nasType"
 	"github.com/free5gc/nas/security"
@@ -178,17 +179,27 @@ func c19Run(sh *c19Shared, it c19Item) (res uint64) {
 		if it.region >= 0 {
 			buf = c19Place(sh, it.region, buf)
 		}
-		err := security.NASEncrypt(it.kind[6]-'0', key, uint32(r.Intn(4)), uint8(r.Intn(2)), uint8(r.Intn(2)), buf)
-		return h64(buf) ^ hs(fmt.Sprint(err))
+		alg, cnt, br, dr := it.kind[6]-'0', uint32(r.Intn(4)), uint8(r.Intn(2)), uint8(r.Intn(2))
+		err := security.NASEncrypt(alg, key, cnt, br, dr, buf)
+		d := h64(buf) ^ hs(fmt.Sprint(err))
+		// the same parameters again straight away (decipher what was just ciphered)
+		back := cloneB(buf)
+		err2 := security.NASEncrypt(alg, key, cnt, br, dr, back)
+		return d ^ h64(back)<<1 ^ hs(fmt.Sprint(err2))
 	case "mac1", "mac2", "mac3":
 		key := sh.keys[r.Intn(3)]
 		msg := r.Bytes(r.Range(1, 1600))
 		if it.region >= 0 {
 			msg = c19Place(sh, it.region, msg)
 		}
-		mac, err := security.NASMacCalculate(it.kind[3]-'0', key, uint32(r.Intn(4)), uint8(r.Intn(2)), uint8(r.Intn(2)), msg)
+		alg, cnt, br, dr := it.kind[3]-'0', uint32(r.Intn(4)), uint8(r.Intn(2)), uint8(r.Intn(2))
+		mac, err := security.NASMacCalculate(alg, key, cnt, br, dr, msg)
 		d := h64(mac) ^ h64(msg) ^ hs(fmt.Sprint(err))
 		scr(mac)
+		// the same parameters again straight away (verify what was just protected)
+		mac2, err2 := security.NASMacCalculate(alg, key, cnt, br, dr, msg)
+		d ^= h64(mac2)<<1 ^ hs(fmt.Sprint(err2))
+		scr(mac2)
 		return d
 	case "accessor":
 		var g nasType.GUTI5G
@@ -430,7 +441,25 @@ type c19Span struct {
 // oracle "round": I=[seed, goroutines, itemsPerGoroutine, kind] — kind < 0: all 18 kinds
 // mixed; kind >= 0: a "storm" in which every goroutine runs only that kind, which
 // maximises the overlap inside one function (pools and caches are per function).
+// c19Writer is a log output that is NOT safe for concurrent use (a plain counter and a plain
+// buffer index), installed with the logger's own SetOutput: logrus serialises writes to its
+// output with the logger's mutex, so the library's log lines may come from any goroutine —
+// unless the library switched that mutex off.
+type c19Writer struct {
+	n   int
+	buf [256]byte
+}
+
+func (w *c19Writer) Write(p []byte) (int, error) {
+	w.n += len(p)
+	copy(w.buf[w.n%128:], p)
+	return len(p), nil
+}
+
+var c19LogSink = &c19Writer{}
+
 func c19Round(c *core.Ctx, k *core.Case) {
+	logger.GetLogger().SetOutput(c19LogSink)
 	sp := mustSpec(c)
 	if sp == nil {
 		return
